@@ -109,11 +109,28 @@ def prove(goal, extra=(), timeout_ms=20000, with_path=True, mono=False):
         STATS.trivial += 1
         STATS.queries["unsat"] += 1
         return "unsat", None, 0.0
-    cons = list(ST.assumptions) + [core.expand_defs(c) for c in ((list(ST.pathcond) if with_path else []) + list(extra))]
+    cons = expanded_assumptions() + [core.expand_defs(c) for c in ((list(ST.pathcond) if with_path else []) + list(extra))]
     neg = core.expand_defs(z3.Not(goal))
     if mono:
         cons += e_axioms(cons + [neg], mono=True)
     return check_sat(cons + [neg], timeout_ms)
+
+
+def expanded_assumptions():
+    """assumptions with the purified atoms unfolded (cached: definitions never change once made).  Assumptions that only say
+    `S!k > 0` are dropped: after unfolding nothing refers to S!k any more."""
+    cache = ST.__dict__.setdefault("_exp_cache", [])
+    A = ST.assumptions
+    if len(cache) > len(A):
+        del cache[:]
+    while len(cache) < len(A):
+        a = A[len(cache)]
+        names = core._defs_in(a) if ST.defs else []
+        if not names:
+            cache.append(a)
+        else:
+            cache.append(core.expand_defs(a))
+    return list(cache)
 
 
 def residue_zero(an, ad, bn, bd):
@@ -224,8 +241,9 @@ class Explorer:
 
     def _sync_solver(self):
         # assumptions may grow during the run (fresh variables): feed the new ones
-        while self.n_assumed < len(ST.assumptions):
-            self.solver.add(ST.assumptions[self.n_assumed])
+        exp = expanded_assumptions()
+        while self.n_assumed < len(exp):
+            self.solver.add(exp[self.n_assumed])
             self.n_assumed += 1
 
     def _feasible(self, cond):
